@@ -214,6 +214,11 @@ def run(ctx):
     ctx.rule("R5.parallel", "offset/length/buffer-address arrays of the aggregation layer are compacted and swapped together")
     prog3 = ctx.program(names=["ncmpio_intra_node.c"])
     n3 = r5par.check(ctx, prog3, "R5.parallel")
+    from rules import r8merge
+    ctx.rule("R8.merge", "the aggregator's overlap merge: sorted, disjoint, same bytes, first request wins (bounded)")
+    n4 = r8merge.check(ctx, ctx.need_fn(prog3, "intra_node_aggregation"), "R8.merge",
+                       {"off": "offsets[%d]", "len": "lengths[%d]", "addr": "bufAddr[%d]", "n": "npairs"})
+    ctx.require(n4 >= 1000, "R8.merge: only %d segment lists evaluated" % n4)
     ctx.require(n3 >= 10, "expected >= 10 element moves over parallel arrays in the aggregation layer, found %d" % n3)
     ctx.require(n1 >= 9 and n2 >= 5, "expected >= 9 + 5 numeric report-back sites, found %d + %d" % (n1, n2))
     # --- report back --------------------------------------------------------------------------
